@@ -172,7 +172,7 @@ def mirror_cases(ctx, n):
 
 def run(ctx):
     H = 3 if ctx.quick else 4
-    cs = cases(ctx, 400 if ctx.quick else 3000) + mirror_cases(ctx, 100 if ctx.quick else 600)
+    cs = cases(ctx, 400 if ctx.quick else 1500) + mirror_cases(ctx, 100 if ctx.quick else 300)
     inputs = []
     for c in cs:
         inputs += [[lang.prog_txt(c['p1'])], [lang.prog_txt(c['p2'])]]
